@@ -466,6 +466,17 @@ pub fn c20_real_test(_w: &mut (), c: &RealShutdown) -> Verdict {
             return fail("C20/real/answer-after-drop-lost", format!("{:?}", vcore::resp::head_preview(&got)));
         }
     }
+    // the server is gone and so are its clients: the accept thread ends and the workers, all of
+    // them idle now, retire after the idle period — nothing of the server stays behind
+    let t2 = Instant::now();
+    let mut left = thread_count();
+    while left > base && t2.elapsed() < Duration::from_secs(9) {
+        std::thread::sleep(Duration::from_millis(200));
+        left = thread_count();
+    }
+    if left > base {
+        return fail(format!("C20/real/threads-left-after-drop/{}", if c.tcp { "tcp" } else { "unix" }), format!("threads: {} before the server existed, still {} more than 9 s after it was dropped and its last client had gone", base, left));
+    }
     Verdict::Pass(Good::nontrivial().class(if c.tcp { format!("tcp:{}", bind_to) } else { "unix".to_string() }).class_if(c.hold, "request-held-across-drop").class(format!("peak-threads-above-baseline={}", (peak.saturating_sub(base)).min(64))))
 }
 
